@@ -88,17 +88,48 @@ impl BedModel {
     fn json(&self) -> serde_json::Value {
         json!({"chrom": self.chrom, "start": self.start, "end": self.end, "aux": self.aux})
     }
-    fn to_record(&self, via_setters: bool) -> bed::Record {
+    /// `via_setters`: 0 = push_aux only; 1 = set_name, set_score, push_aux…; 2 = set_score first
+    /// (which creates an empty name), then set_name; 3 = as 1 but every setter called twice, the
+    /// first time with a throw-away value (setters must overwrite, not append).
+    fn to_record(&self, via_setters: u8) -> bed::Record {
         let mut r = bed::Record::new();
+        if via_setters == 3 {
+            r.set_chrom("tmp");
+            r.set_start(7);
+            r.set_end(9);
+        }
         r.set_chrom(&self.chrom);
         r.set_start(self.start);
         r.set_end(self.end);
-        if via_setters && self.aux.len() >= 2 {
-            r.set_name(&self.aux[0]);
+        if via_setters > 0 && self.aux.len() >= 2 && self.aux[0].is_empty() {
+            // "score without a name": set_score alone must create the empty name column itself
             r.set_score(&self.aux[1]);
             for a in &self.aux[2..] {
                 r.push_aux(a);
             }
+        } else if via_setters > 0 && self.aux.len() >= 2 {
+            match via_setters {
+                1 => {
+                    r.set_name(&self.aux[0]);
+                    r.set_score(&self.aux[1]);
+                }
+                2 => {
+                    r.set_score(&self.aux[1]);
+                    r.set_name(&self.aux[0]);
+                }
+                _ => {
+                    r.set_name("tmp-name");
+                    r.set_score("tmp-score");
+                    r.set_score(&self.aux[1]);
+                    r.set_name(&self.aux[0]);
+                }
+            }
+            for a in &self.aux[2..] {
+                r.push_aux(a);
+            }
+        } else if via_setters > 0 && self.aux.len() == 1 {
+            r.set_name("tmp-name");
+            r.set_name(&self.aux[0]);
         } else {
             for a in &self.aux {
                 r.push_aux(a);
@@ -387,11 +418,13 @@ fn gff_compare(read: &gff::Record, m: &GffModel, wrote: &gff::Record) -> Result<
         }
     }
     if read.attributes().len() != m.attrs.len() {
-        let extra: Vec<&String> = read.attributes().keys().filter(|k| !m.attrs.iter().any(|(mk, _)| mk == *k)).collect();
+        // sorted: the map read back iterates in its own random hash order, messages must not
+        let mut extra: Vec<&String> = read.attributes().keys().filter(|k| !m.attrs.iter().any(|(mk, _)| mk == *k)).collect();
+        extra.sort();
         return Err(("C13.c-attributes", format!("read back keys that were never written: {:?}", extra)));
     }
     if read != wrote {
-        return Err(("C13.b-gff-fields", format!("records differ as a whole (PartialEq): read {:?}, wrote {:?}", read, wrote)));
+        return Err(("C13.b-gff-fields", format!("records differ as a whole (PartialEq): read {}, wrote {}", gff_model_of(read), gff_model_of(wrote))));
     }
     Ok(())
 }
@@ -537,7 +570,7 @@ fn gen_workload(w: &W, fmt: Fmt) -> Result<Workload, Violation> {
     match fmt {
         Fmt::Bed => {
             let (v, k) = gen_bed(w);
-            let via_setters = w.chance(1, 3);
+            let via_setters = w.draw(4) as u8;
             wl.bed_recs = v.iter().map(|b| b.to_record(via_setters)).collect();
             wl.bed = v;
             wl.k = k;
